@@ -63,7 +63,34 @@ func OrderCase(r *sim.R, k int, run Scheduler, errKind func(error) string) {
 		r.Order = save
 	}
 
-	switch r.T.Weighted([]int{4, 2, 2, 1}, "order-target") {
+	switch r.T.Weighted([]int{4, 2, 2, 1, 3}, "order-target") {
+	case 4:
+		// typed map targets: every setting is converted to the element type, bare references
+		// to lists and single values alike (sibling settings share one struct-level scope)
+		kind := r.T.Choose(3, "typed-map-kind")
+		run("Unpack(typed map)", detail, false, func() (string, string, uint64) {
+			rebuild()
+			var err error
+			var data string
+			switch kind {
+			case 0:
+				var m map[string][]string
+				err = e.rootCfg.Unpack(&m, e.opts...)
+				data = fmt.Sprint(m)
+			case 1:
+				var m map[string]string
+				err = e.rootCfg.Unpack(&m, e.opts...)
+				data = fmt.Sprint(m)
+			default:
+				var m map[string][]interface{}
+				err = e.rootCfg.Unpack(&m, e.opts...)
+				data = fmt.Sprint(m)
+			}
+			if err != nil {
+				return errKind(err), "", 0
+			}
+			return "ok", data, fp.Shape(e.rootCfg)
+		})
 	case 0:
 		run("Unpack", detail, kindsComparable, func() (string, string, uint64) {
 			rebuild()
